@@ -15,7 +15,8 @@ cryptographic primitives is modelled twice:
 `PExpr.eval P` is the denotation of a plan under primitives `P`; for every construction a theorem
 `…_plan_eval` states `eval P plan = the function over P`.
 -/
-namespace Rpgp
+namespace Rpgp.Sym
+open Rpgp
 
 /-- the primitives rpgp composes in the constructions of C12 (parameters, never axioms).
 Numeric arguments are OpenPGP algorithm ids. -/
@@ -118,4 +119,4 @@ def PtRef.slice : PtRef → Nat → Nat → PExpr
   | .bytes b, off, len => .lit ((b.drop off).take len)
   | .pat s l, off, len => .pat s off (min len (l - off))
 
-end Rpgp
+end Rpgp.Sym
